@@ -8,6 +8,7 @@ import (
 	"flag"
 	"fmt"
 	"os"
+	"runtime/pprof"
 
 	"hcverif/sym"
 )
@@ -32,6 +33,14 @@ func main() {
 		fs.StringVar(&o.Solver, "solver", "z3", "incremental solver: z3|z3-new|cvc5")
 		fs.IntVar(&o.MaxPaths, "max-paths", 0, "cap on paths per harness (0 = tier default)")
 		fs.Parse(os.Args[2:])
+		if pf := os.Getenv("HCSYM_PROF"); pf != "" {
+			f, _ := os.Create(pf)
+			pprof.StartCPUProfile(f)
+			code := sym.RunCheck(o)
+			pprof.StopCPUProfile()
+			f.Close()
+			os.Exit(code)
+		}
 		os.Exit(sym.RunCheck(o))
 	case "replay":
 		if len(os.Args) < 3 {
